@@ -180,12 +180,13 @@ Proof.
       eapply (inv_pc_free_gen s0); eauto; simp; try lia; rewrite ?Ep, ?Ec; try rewrite Hpc; simpl; auto;
       try (destruct k; simpl; reflexivity);
       try (destruct k; simpl; try tauto; intros _; eapply (I7 _ HI); rewrite Hpc; simpl; auto) end.
-  - (* ARLRemove *) admit.
-  - (* ARLClose *) admit.
-  - (* ARLReadErr *) admit.
-  - (* ATimerFire *) admit.
-  - (* ATimerClose *) admit.
-  - (* ARemoveConn *) admit.
+  - (* ARLRemove *) inv_step H. eapply inv_set_cn_same; eauto. eapply inv_remove_sub; eauto.
+  - (* ARLClose *) inv_step H. eapply inv_set_cn_same; eauto. eapply inv_shut; eauto.
+  - (* ARLReadErr *) inv_step H. eapply inv_set_cn_same; eauto. eapply inv_shut; eauto.
+  - (* ATimerFire *) inv_step H; eapply inv_set_cn_same; eauto.
+  - (* ATimerClose *) inv_step H. eapply inv_shut; [|eauto]. eapply inv_set_cn_same; eauto.
+  - (* ARemoveConn *) inv_step H. eapply (inv_ext (set_cn s c (c_set_rm c0 false))); eauto.
+    eapply inv_set_cn_same; eauto.
   - (* UpAccept *) inv_step H. eapply inv_ext; eauto.
   - (* UpReject *) inv_step H.
     match goal with Hd : dials s ?d = Some ?x, Hph : d_phase ?x = _ |- _ =>
@@ -196,8 +197,8 @@ Proof.
     match goal with Hd : dials s ?d = Some ?x, Hph : d_phase ?x = _ |- _ =>
       pose proof (HO _ _ Hd) as Hp; rewrite Hph in Hp; specialize (Hp ltac:(discriminate)) end.
     eapply (inv_pc_free_gen s); eauto; simp; try lia; try rewrite Hp; simpl; auto; try discriminate; tauto.
-  - (* UpMsg *) admit.
-  - (* UpDrop *) admit.
+  - (* UpMsg *) inv_step H; auto; eapply inv_set_cn_same; eauto.
+  - (* UpDrop *) inv_step H. eapply inv_set_cn_same; eauto. unfold c_kill; simpl. congruence.
   - (* APingTimeout *) inv_step H. eapply inv_shut; eauto.
   - inv_step H; eapply inv_ext; eauto.
   - inv_step H; eapply inv_ext; eauto.
